@@ -522,9 +522,14 @@ def _rand_draw(gen, dist, args, shape, chunks, is_rs):
     return fn(*args, **kw)
 
 
+RAND_GENS = None  # set to a list by checks that go on drawing from the generators of random leaves
+
+
 def _rand_da(p):
     gen = _rand_generator(p)
     is_rs = p["gen"] == "RandomState"
+    if RAND_GENS is not None:
+        RAND_GENS.append((gen, is_rs))
     for b in p.get("before", []):
         _rand_draw(gen, b["dist"], RANDOM_DISTS[b["dist"]](__import__("random").Random(0)), b["shape"], b["chunks"], is_rs)
     args = list(p["args"])
